@@ -13,6 +13,7 @@ import (
 	"github.com/postalsys/muti-metroo/internal/crypto"
 	"github.com/postalsys/muti-metroo/internal/identity"
 	"github.com/postalsys/muti-metroo/internal/protocol"
+	"github.com/postalsys/muti-metroo/internal/verifhook"
 )
 
 // StreamState represents the state of a stream.
@@ -583,6 +584,8 @@ func (m *Manager) HandleStreamData(streamID uint64, flags uint8, data []byte) er
 			m.onStreamData(stream, data)
 		}
 	}
+
+	verifhook.At("stream.HandleStreamData.between-push-and-fin")
 
 	// Handle FIN flags
 	if flags&protocol.FlagFinWrite != 0 {
